@@ -516,11 +516,15 @@ func (p *StreamPool) getConnection(k key, end bool, ts time.Time) *connection {
 	verifYield("getConnection:before-insert")
 	verifBeforePoolLock(&p.mu, true)
 	p.mu.Lock()
-	conn = p.newConnection(k, s, ts)
 	if conn2 := p.conns[k]; conn2 != nil {
+		// Another assembler added this connection since the lookup above. Do
+		// not take an object from the free list for nothing: set up for this
+		// key but never stored, it would look alive to an assembler that still
+		// holds a pointer to it from an earlier life under the same key.
 		p.mu.Unlock()
 		return conn2
 	}
+	conn = p.newConnection(k, s, ts)
 	p.conns[k] = conn
 	p.mu.Unlock()
 	return conn
